@@ -73,13 +73,30 @@ def r1(text):
     ], text)
 
 
-@rule("R4", "Mutex critical section -> atomic block on the protected value: `X.lock().expect(\"not poisoned\")` -> "
-            "`(&mut X)`; `drop(l);` deleted.  Assumed: std::sync::Mutex gives mutual exclusion and is never poisoned.")
+@rule("R4", "Mutex critical section -> atomic block on the protected value: `let mut l = X.lock().expect(\"not poisoned\");` -> "
+            "`let l = &mut X;` (also the two-statement form `let shared = &self.shared; let mut l = shared.lock()...`); "
+            "`X.lock().expect(..)` in expression position -> `(&X)`; `drop(l);` deleted; `Arc::new(Mutex::new(V))` -> `V`.  "
+            "Assumed: std::sync::Mutex gives mutual exclusion and is never poisoned; Arc::clone yields a handle to the same value.")
 def r4(text):
-    t, n1 = re.subn(r"let\s+mut\s+(\w+)\s*=\s*([\w\.]+)\.lock\(\)\.expect\(\"not poisoned\"\);", r"let \1 = &mut \2;", text)
-    t, n2 = re.subn(r"&?([\w\.]+)\.lock\(\)\.expect\(\"not poisoned\"\)", r"(&\1)", t)
+    t, n0 = re.subn(r"let\s+shared\s*=\s*&self\.shared;(\s*)let\s+mut\s+(\w+)\s*=\s*shared\.lock\(\)\.expect\(\"not poisoned\"\);", r"\1let \2 = &mut self.shared;", text)
+    t, n1 = re.subn(r"let\s+mut\s+(\w+)\s*=\s*([\w\.]+)\.lock\(\)\.expect\(\"not poisoned\"\);", r"let \1 = &mut \2;", t)
+    t, n2 = re.subn(r"([\w\.]+)\.lock\(\)\.expect\(\"not poisoned\"\)", r"(&\1)", t)
     t, n3 = re.subn(r"\bdrop\(l\);", "", t)
-    return t, n1 + n2 + n3
+    n4 = 0
+    while True:
+        m = re.search(r"\bArc::new\(Mutex::new\(", t)
+        if not m:
+            break
+        o = m.end() - 1   # inner '('
+        toks = tokenize(t[o:])
+        c = o + toks[match_close(toks, 0)].start      # inner ')'
+        # outer ')' follows
+        rest = t[c + 1:]
+        k = len(rest) - len(rest.lstrip())
+        assert rest[k] == ")"
+        t = t[:m.start()] + t[o + 1:c] + rest[:k] + rest[k + 1:]
+        n4 += 1
+    return t, n0 + n1 + n2 + n3 + n4
 
 
 @rule("R5", "Run-time assertions become proof obligations: `debug_assert_eq!(a, b)` -> `assert(a == b)`; "
@@ -104,11 +121,57 @@ def r5(text):
     return out, n
 
 
-@rule("R7", "Definition of Result::map_err with a closure ignoring its argument: `X.map_err(|_| E)` -> "
-            "`match X { Ok(v_) => Ok(v_), Err(_) => Err(E) }` (Verus rejects `_` closure parameters).")
+def _receiver_start(text, dot_off):
+    """Offset where the postfix-expression ending just before text[dot_off] == '.' starts."""
+    toks = tokenize(text[:dot_off])
+    i = len(toks) - 1
+    while i >= 0:
+        t = toks[i]
+        if t.text in (")", "]"):
+            # find matching open
+            depth = 0
+            while i >= 0:
+                if toks[i].text in (")", "]", "}"):
+                    depth += 1
+                elif toks[i].text in ("(", "[", "{"):
+                    depth -= 1
+                    if depth == 0:
+                        break
+                i -= 1
+            i -= 1
+            continue
+        if t.kind in ("id", "num", "str") or t.text in ("?",):
+            i -= 1
+            continue
+        if t.text == "." or (t.text == ":" and i > 0 and toks[i - 1].text == ":"):
+            i -= 2 if t.text == ":" else 1
+            continue
+        break
+    return toks[i + 1].start
+
+
+@rule("R7", "Definition of Result::map_err with a closure that ignores its argument: `X.map_err(|_| E)` -> "
+            "`match X { Ok(v_) => Ok(v_), Err(_) => Err(E) }`.")
 def r7(text):
-    # handled by closure-parameter renaming only: |_| -> |_e|
-    return re.subn(r"\|\s*_\s*\|", "|_e|", text)
+    n = 0
+    while True:
+        m = re.search(r"\.\s*map_err\(\s*\|\s*_\s*\|", text)
+        if not m:
+            break
+        dot = m.start()
+        # whitespace before the dot belongs to the receiver chain
+        o = text.index("(", m.start())
+        toks = tokenize(text[o:])
+        c = o + toks[match_close(toks, 0)].start
+        inner = text[m.end():c].strip()
+        rs = _receiver_start(text, dot)
+        recv = text[rs:dot].rstrip()
+        rep = "match %s { Ok(v_) => Ok(v_), Err(_) => Err(%s) }" % (recv, inner)
+        old = text[rs:c + 1]
+        rep = rep + "\n" * (old.count("\n") - rep.count("\n"))
+        text = text[:rs] + rep + text[c + 1:]
+        n += 1
+    return text, n
 
 
 @rule("R24", "Inline `const { assert!(..) };` block removed: evaluated at compile time only.")
@@ -192,3 +255,45 @@ def r25(text):
         bs = decode_bytes_literal(m.group(3))
         return "#[verifier::external_body] pub exec const %s: &'static [u8] ensures %s@ == %s { %s }" % (m.group(1), m.group(1), seq_of(bs), m.group(3))
     return re.subn(r"\bconst\s+(\w+)\s*:\s*&('static\s+)?\[u8\]\s*=\s*(b\"(?:[^\"\\]|\\.)*\")\s*;", rep, text)
+
+
+@rule("R6", "Ghost wake log: `w.wake()` -> `w.wake(log)`, and the functions on the path thread a ghost parameter "
+            "`log: &mut Ghost<Seq<u64>>` (`self.flush()` -> `self.flush(log)`, `self.flush_helper(b)` -> `self.flush_helper(b, log)`); "
+            "ghost-only instrumentation so that 'the taken waker is woken' can be a postcondition.")
+def r6(text):
+    return _subn([
+        (r"\.wake\(\)", ".wake(log)"),
+        (r"\bself\.flush\(\)", "self.flush(log)"),
+        (r"\bself\.flush_helper\((\w+)\)", r"self.flush_helper(\1, log)"),
+    ], text)
+
+
+@rule("R18", "`self.buf.extend_from_slice(X)` -> `vec_extend_from_slice(&mut self.buf, X)`: same call through a wrapper whose "
+             "assumed contract adds 'no reallocation while len + n <= capacity' (vstd's specification is silent on capacity); "
+             "`buf: Vec::new()` -> `buf: vec_new_u8()` (same call; assumed: Vec::new() has capacity 0).")
+def r18(text):
+    n = 0
+    while True:
+        m = re.search(r"\bself\.buf\.extend_from_slice\(", text)
+        if not m:
+            break
+        o = m.end() - 1
+        toks = tokenize(text[o:])
+        c = o + toks[match_close(toks, 0)].start
+        text = text[:m.start()] + "vec_extend_from_slice(&mut self.buf, " + text[o + 1:c] + ")" + text[c + 1:]
+        n += 1
+    text, k = re.subn(r"\bbuf:\s*Vec::new\(\)", "buf: vec_new_u8()", text)
+    return text, n + k
+
+
+@rule("T_chunk", "Type-level: `Arc<Mutex<Shared<E>>>` -> `Shared<E>` (R4); `std::task::Waker` -> prelude `Waker`; "
+                 "`PhantomData<fn(D)>` -> `PhantomData<D>` (variance marker only; Verus has no fn-pointer types); "
+                 "`where` bounds of the struct dropped (bounds live on the overlay impl).")
+def t_chunk(text):
+    return _subn([
+        (r"Arc<\s*Mutex<\s*Shared<E>\s*>\s*>", "Shared<E>"),
+        (r"\bstd::task::Waker\b", "Waker"),
+        (r"PhantomData<\s*fn\(D\)\s*>", "PhantomData<D>"),
+        (r"\bwhere\s+D:[^{]*?E:[^{]*?(?=\{)", ""),
+        (r"\bpub\(crate\)\s*", "pub "),
+    ], text)
